@@ -66,7 +66,8 @@ def _ematch(hyps, g, axioms, timeout_ms):
 
 
 PHASE = ["first"]      # "first": E-matching, pointwise instantiation (1 round), finite-universe refutation, full z3
-                       # "retry": E-matching, pointwise (1 and 2 rounds), cvc5 — with the doubled budget of the retry
+                       # "retry": E-matching, pointwise instantiation with the doubled budget (thorough tier: also a second
+                       #          instantiation round and cvc5)
 
 
 def solve(hyps, goal, axioms=(), timeout_ms=10000, want_model=True):
@@ -95,7 +96,10 @@ def solve(hyps, goal, axioms=(), timeout_ms=10000, want_model=True):
                     continue
             except z3.Z3Exception:
                 pass
-            for rounds in ((1,) if PHASE[0] == "first" else (1, 2)):
+            # second-line provers (two instantiation rounds, cvc5) only in the thorough tier's retry: on the unchanged tree no
+            # obligation needs them, and they double the cost of every failing obligation
+            deep = PHASE[0] == "retry" and timeout_ms >= 50000
+            for rounds in ((1, 2) if deep else (1,)):
                 try:
                     r = pointwise_check(qf, qh, g, axioms, timeout_ms, rounds=rounds)
                 except z3.Z3Exception:
@@ -125,8 +129,8 @@ def solve(hyps, goal, axioms=(), timeout_ms=10000, want_model=True):
                 continue
             if r == "sat":
                 return "refuted", "z3-" + z3.get_version_string(), time.time() - t0, mtxt[:6000], None
-        else:
-            # second opinion (retry phase only): cvc5 on the SMT-LIB text
+        elif timeout_ms >= 50000:
+            # second opinion (thorough tier's retry only): cvc5 on the SMT-LIB text
             st2, secs2 = cvc5_check(s.to_smt2(), timeout_ms)
             if st2 == "unsat":
                 backends.add("cvc5")
